@@ -469,6 +469,13 @@ def main(argv):
             cases.append(case_term(iso, j, inp, rest, o))
             meta.append(describe(iso, j, ai, inp, rest, o))
             direct_case(fails, iso, j, ai, inp, rest, o, rng, full=(i < 12))
+            if ai.fast and fast > 0 and i % 2 == 0:
+                # everything the same but the fast ratio: a result must not be taken over from the call just made
+                inp2 = (mass, flu, cd, fast * 2.5, expo)
+                o2 = one_row(iso, ai, mass, act.ActivationEnvironment(flu, cd, fast * 2.5), expo, rest)
+                cases.append(case_term(iso, j, inp2, rest, o2))
+                meta.append(describe(iso, j, ai, inp2, rest, o2))
+                direct_case(fails, iso, j, ai, inp2, rest, o2, rng, full=False)
     # fixed inputs of the recorded findings (known_findings.jsonl): re-examined on every run whatever the seed
     class FixedFactor(random.Random):
         def choice(self, seq):          # the exposure factor of the monotonicity statement: always 2
